@@ -378,7 +378,9 @@ func checkC07(c *Ctx) {
 						if len(a) >= 2 && a[len(a)-2] == ssa.Value(fn.Params[1]) && a[len(a)-1] == ssa.Value(fn.Params[2]) {
 							ok = true
 						} else if g.check == "checkFromToIndex" && len(a) == 3 && a[0] == ssa.Value(fn.Params[1]) && a[1] == ssa.Value(fn.Params[2]) {
-							ok = matches(a[2], lenOf2(func(v ssa.Value) bool { return LoadOfField(v, g.arr, func(b ssa.Value) bool { return b == ssa.Value(fn.Params[0]) }) }))
+							ok = matches(a[2], lenOf2(func(v ssa.Value) bool {
+								return LoadOfField(v, g.arr, func(b ssa.Value) bool { return b == ssa.Value(fn.Params[0]) })
+							}))
 						}
 					}
 				}
@@ -509,7 +511,9 @@ func checkC07(c *Ctx) {
 			from, to := cm.Params[1], cm.Params[2]
 			argsOK := ubCall.Call.Args[1] == ssa.Value(from) && lbCall.Call.Args[1] == ssa.Value(from) &&
 				idxCall.Call.Args[0] == ssa.Value(from) && idxCall.Call.Args[1] == ssa.Value(to) &&
-				matches(idxCall.Call.Args[2], lenOf2(func(v ssa.Value) bool { return LoadOfField(v, "seq", func(b ssa.Value) bool { return b == ssa.Value(cm.Params[0]) }) }))
+				matches(idxCall.Call.Args[2], lenOf2(func(v ssa.Value) bool {
+					return LoadOfField(v, "seq", func(b ssa.Value) bool { return b == ssa.Value(cm.Params[0]) })
+				}))
 			c.Oblige("C07.ord", ShortName(cm)+"/bounds-of-from", c.Prog.FuncPos(cm), argsOK, "checkMove must validate (from, to, len(b.seq)) and ask for the bounds of `from`")
 			nOrd := 0
 			for _, o := range WeakOrderings(4) {
